@@ -243,3 +243,113 @@ pub fn main_numbers(args: &[String]) -> i32 {
     writeln!(out, "{}", json!({"event":"End"})).unwrap();
     0
 }
+
+// ---------------------------------------------------------------------------------------------
+// identifiers
+
+/// PRQL spelling of a name: bare when it is a simple identifier that PRQL does not read as a keyword, a literal
+/// or a standard-library name; in backticks otherwise
+fn prql_ident(name: &str) -> String {
+    const WORDS: [&str; 40] = ["let", "into", "case", "prql", "type", "module", "internal", "func", "import", "enum", "true", "false",
+        "null", "select", "from", "derive", "filter", "group", "sort", "take", "join", "aggregate", "window", "append", "loop", "count",
+        "sum", "min", "max", "average", "date", "text", "math", "this", "that", "std", "in", "as", "all", "any"];
+    if WORDS.contains(&name) || name.contains('$') {
+        format!("`{name}`")
+    } else {
+        crate::render::ident(name)
+    }
+}
+
+/// the identifier token at the place the name was used: first word after SELECT (column / alias position: the
+/// word after AS) or after FROM (table position)
+fn ident_token(d: &str, sql: &str, pos: &str) -> J {
+    let dia = dialect_of(d);
+    let toks: Vec<Token> = Tokenizer::new(dia.as_ref(), sql).tokenize().unwrap_or_default().into_iter()
+        .filter(|t| !matches!(t, Token::Whitespace(_))).collect();
+    let anchor = match pos { "table" => "from", "alias" => "as", _ => "select" };
+    let mut it = toks.iter();
+    while let Some(t) = it.next() {
+        if let Token::Word(w) = t {
+            if w.quote_style.is_none() && w.value.eq_ignore_ascii_case(anchor) {
+                // the next word token (for a column it may be qualified: t.name -> take the last part)
+                let mut last: Option<&sqlparser::tokenizer::Word> = None;
+                let mut expect_word = true;
+                for t2 in it.by_ref() {
+                    match t2 {
+                        Token::Word(w2) if expect_word => { last = Some(w2); expect_word = false; }
+                        Token::Period if !expect_word => { expect_word = true; }
+                        _ => break,
+                    }
+                }
+                return match last {
+                    Some(w2) => json!({"found": true, "value": w2.value, "quoted": w2.quote_style.is_some(), "q": w2.quote_style.map(|c| c as u32).unwrap_or(0)}),
+                    None => json!({"found": false, "value": "", "quoted": false, "q": 0}),
+                };
+            }
+        }
+    }
+    json!({"found": false, "value": "", "quoted": false, "q": 0})
+}
+
+/// args: <names.ndjson {"s","cps","lower"}> <out.ndjson>
+pub fn main_idents(args: &[String]) -> i32 {
+    let mut out = std::io::BufWriter::new(std::fs::File::create(&args[1]).expect("out"));
+    let mut id = 0;
+    for line in std::fs::read_to_string(&args[0]).expect("names").lines() {
+        if line.trim().is_empty() {
+            continue;
+        }
+        let n: J = serde_json::from_str(line).expect("json");
+        let name = n["s"].as_str().unwrap_or("");
+        let pid = prql_ident(name);
+        // names of standard-library members are reached as `this.<name>` (keywords.md); as a table name
+        // they would need a module path, which is outside this check
+        const STD: [&str; 27] = ["this", "that", "std", "select", "from", "derive", "filter", "group", "sort", "take", "join", "aggregate", "window", "append",
+            "loop", "count", "sum", "min", "max", "average", "date", "text", "math", "in", "as", "all", "any"];
+        let is_std = STD.contains(&name);
+        for pos in ["column", "table", "alias"] {
+            if is_std && pos == "table" {
+                continue;
+            }
+            let src = match pos {
+                "column" if is_std => format!("from t | select {{this.{pid}}}"),
+                "column" => format!("from t | select {{{pid}}}"),
+                "table" => format!("from {pid} | select {{m}}"),
+                _ => format!("from t | select {{{pid} = m}}"),
+            };
+            let mut ds = vec![];
+            let mut sqlite = json!({"ran": false, "marker": -1, "colname": "", "err": ""});
+            for d in api::DIALECTS {
+                match api::compile(&src, Some(d)) {
+                    api::Outcome::Ok(sql) => {
+                        ds.push(json!({"d": d, "compiled": true, "tok": ident_token(d, &sql, pos), "sql": sql}));
+                        if d == "sqlite" {
+                            // objects of exactly that name hold the marker; decoys hold something else
+                            let conn = rusqlite::Connection::open_in_memory().expect("sqlite");
+                            let q = crate::db::qi(name);
+                            let setup = match pos {
+                                "column" => format!("CREATE TABLE t (k, {q}, m); INSERT INTO t VALUES (1, 4242, 7);"),
+                                "table" => format!("CREATE TABLE {q} (k, m); INSERT INTO {q} VALUES (1, 4242);"),
+                                _ => "CREATE TABLE t (k, m); INSERT INTO t VALUES (1, 4242);".to_string(),
+                            };
+                            let _ = conn.execute_batch(&setup);
+                            match crate::db::query(&conn, &sql) {
+                                Ok(r) => {
+                                    let v = r.rows.first().map(|x| x[0]["n"].as_i64().unwrap_or(-1)).unwrap_or(-1);
+                                    sqlite = json!({"ran": true, "marker": v, "colname": r.names.first().cloned().unwrap_or_default(), "err": ""});
+                                }
+                                Err(e) => sqlite = json!({"ran": false, "marker": -1, "colname": "", "err": e}),
+                            }
+                        }
+                    }
+                    api::Outcome::Err(e) => ds.push(json!({"d": d, "compiled": false, "tok": {"found": false, "value": "", "quoted": false, "q": 0}, "sql": e.inner.first().map(|m| m.reason.clone())})),
+                    api::Outcome::Panic { msg, .. } => ds.push(json!({"d": d, "compiled": false, "tok": {"found": false, "value": "", "quoted": false, "q": 0}, "sql": format!("PANIC {msg}")})),
+                }
+            }
+            writeln!(out, "{}", json!({"event":"Ident","id":id,"name":n,"pos":pos,"src":src,"sqlite":sqlite,"dialects":ds})).unwrap();
+            id += 1;
+        }
+    }
+    writeln!(out, "{}", json!({"event":"End"})).unwrap();
+    0
+}
